@@ -99,12 +99,55 @@ def build_trace(instances, by_name, caps=None):
                     cur = len(trace)
                 k = e["op"] + (":ok" if e["ok"] else ":panic" if e["panic"] else ":err")
                 ops[k] = ops.get(k, 0) + 1
+                for tag in branch_tags(e, trace[o["pi"] - 1]["S"]):
+                    ops["tag:" + tag] = ops.get("tag:" + tag, 0) + 1
             elif e["ev"] == "loadfail":
                 trace.append({"ev": "loadfail", "li": li, "panic": e["panic"]})
         meta.append({"name": I["name"], "first": first, "last": len(trace), "ops": ops})
     for t in trace:
         common.check_ints(t)
     return trace, meta
+
+
+def branch_tags(e, pre):
+    """Coverage tags of one call (which documented branch it exercised); counted, never judged."""
+    tags = []
+    a = e.get("args", {})
+    if not e["ok"]:
+        return tags
+    post = e["S"]
+    ids_post = {v["id"] for v in post["veh"]} | {d["id"] for d in post["dum"]}
+    if "p" in a:
+        if a["p"].startswith("dummy"):
+            tags.append("provider_dummy")
+        if a["r"].startswith("dummy"):
+            tags.append("receiver_dummy")
+        if a["p"] not in ids_post:
+            tags.append("provider_deleted")
+        if a["s"].startswith("s_") or a["e"].startswith("e_"):
+            tags.append("segment_with_depot")
+    if len(post["dum"]) > len(pre["dum"]):
+        tags.append("new_dummy")
+    if len(post["veh"]) < len(pre["veh"]):
+        tags.append("vehicle_disappears")
+    if e["op"].startswith("spawn"):
+        new = [v for v in post["veh"] if v["id"] == e.get("ret", {}).get("id")]
+        if new and new[0]["n"][0] == "s_OVERFLOW_DEPOT":
+            tags.append("overflow_start")
+            if a.get("path") and a["path"][0].startswith("s_") and a["path"][0] != "s_OVERFLOW_DEPOT":
+                tags.append("overflow_fallback")
+    if e["op"] == "add_path_to_vehicle_tour" and e.get("ret", {}).get("removed"):
+        tags.append("conflict_returned")
+    if e["op"] == "fit_reassign" and "p" in a and a["p"] in ids_post:
+        before = [v for v in pre["veh"] + pre["dum"] if v["id"] == a["p"]]
+        after = [v for v in post["veh"] + post["dum"] if v["id"] == a["p"]]
+        if before and after and 0 < len(before[0]["n"]) - len(after[0]["n"]):
+            tags.append("fit_moved_some")
+        if before and after and len(before[0]["n"]) == len(after[0]["n"]):
+            tags.append("fit_moved_nothing")
+    if any(len(f["v"]) >= 3 for f in post["form"]):
+        tags.append("formation_of_3plus")
+    return tags
 
 
 def walk_instances(seed, n):
